@@ -571,7 +571,52 @@ def rule_h(ctx: Ctx) -> None:
     ctx.min_instances("parser_calls_scanned", n, 5000)
 
 
-RULES = [rule_a, rule_b, rule_c, rule_d, rule_e, rule_f, rule_g, rule_h]
+REVIEWED_REWINDS = {
+    ("sqlglot.tokenizer_core:TokenizerCore._scan_number", "self._advance(-len(numeric_literal))"):
+        "numeric_literal is built from identifier characters only (the loop appends self._peek while it isidentifier()): it contains no line break",
+}
+
+
+def rule_i(ctx: Ctx) -> None:
+    ctx.rule("C13.i", "rewinds restore the line: a backward _advance over text that was scanned speculatively (the result of _extract_string, which counts the line breaks it "
+                      "passes) is followed by a restore of self._line / self._col from a snapshot — _advance(-k) itself never takes line breaks back")
+    tc = ctx.repo.cls(TC, "TokenizerCore")
+    n = 0
+    for name, md in tc.methods().items():
+        m = tc.module
+        for c in walk_no_nested(md):
+            if not (isinstance(c, ast.Call) and call_name(c) == "self._advance" and c.args and isinstance(c.args[0], ast.UnaryOp) and isinstance(c.args[0].op, ast.USub)):
+                continue
+            operand = c.args[0].operand
+            if isinstance(operand, ast.Constant):
+                continue  # a fixed small step back over characters the caller has just inspected
+            n += 1
+            where = f"{tc.key}.{name}"
+            txt = norm(c)
+            inst = f"{where}|{txt}"
+            # restore in the same block after the rewind
+            st = m.enclosing_stmt(c)
+            blk = m.parent(st)
+            restored = False
+            for fld in ("body", "orelse"):
+                seq = getattr(blk, fld, None)
+                if isinstance(seq, list) and st in seq:
+                    for later in seq[seq.index(st) + 1:]:
+                        tg = [norm(t_) for x in ast.walk(later) if isinstance(x, ast.Assign) for t_ in (x.targets[0].elts if isinstance(x.targets[0], ast.Tuple) else [x.targets[0]])]
+                        if "self._line" in tg and "self._col" in tg:
+                            restored = True
+            if restored:
+                ctx.ok(inst, {"rewind": txt, "in": where, "restores": "self._line, self._col"})
+            elif (where, txt) in REVIEWED_REWINDS:
+                ctx.ok(inst, {"rewind": txt, "in": where, "reviewed": REVIEWED_REWINDS[(where, txt)]})
+            else:
+                ctx.fail(m, c, where, c, f"`{txt}` steps back over scanned text without restoring self._line / self._col: if that text contained a line break the line stays "
+                                         f"incremented and the column goes negative, so every later token is reported on the wrong line")
+    ctx.count("variable_rewinds", n)
+    ctx.min_instances("variable_rewinds", n, 2)
+
+
+RULES = [rule_a, rule_b, rule_c, rule_d, rule_e, rule_f, rule_g, rule_h, rule_i]
 EXPLANATION = (
     "Representation invariants of the scanner cursor checked symbolically on every block that writes _current (linear "
     "normal form of offsets with local resolution, so the str.find and alnum fast paths are covered), the token stamp, "
